@@ -38,11 +38,11 @@ package cbor
 //@   modifies nothing
 
 '''
-COMMON_BV='''//@   props C09 C08 C01 C02 C03
+COMMON_BV='''//@   props C09 C01 C03
 //@   arith bv
 //@   flag tags binary_log
 '''
-COMMON='''//@   props C09 C08 C01 C02 C03
+COMMON='''//@   props C09 C01 C03
 //@   arith int
 //@   flag noovf
 //@   flag tags binary_log
